@@ -342,7 +342,9 @@ pub fn directed() -> Vec<Doc> {
         gap: 0,
         kind: EntryKind::Standard { blocks: vec![BlockSpec { len: 30 + uid as usize, mode: Mode::Raw }], fill: uid * 4 + 3 },
     };
-    let mut many: Vec<EntrySpec> = (0..12).map(|i| ent(&format!("exd/sheet{}.exh", i), 0, true, true, 40 + i)).collect();
+    // a third of the sheets is listed in both index files, a third in .index only, a third in
+    // .index2 only, so that an index file that was only partly loaded cannot hide behind the other
+    let mut many: Vec<EntrySpec> = (0..12).map(|i| ent(&format!("exd/sheet{}.exh", i), 0, i % 3 != 2, i % 3 != 1, 40 + i)).collect();
     many.push(EntrySpec { phantom: Some(((1u64 << 28) - 1) * 128), ..ent("exd/phantom.exd", 7, true, true, 60) });
     let install = InstallSpec {
         platform: 2,
@@ -351,7 +353,7 @@ pub fn directed() -> Vec<Doc> {
                 exp: 0,
                 version_file: true,
                 packs: vec![
-                    PackSpec { cat: 0x0a, chunk: 0, kind: IndexKind::Both, entries: many },
+                    PackSpec { cat: 0x0a, chunk: 0, kind: IndexKind::Partial, entries: many },
                     PackSpec {
                         cat: 0x04,
                         chunk: 3,
@@ -422,6 +424,28 @@ pub fn directed() -> Vec<Doc> {
             io_faults: faults,
             body: Body::C01(C01Doc { install: install.clone(), queries: queries.clone() }),
         });
+    }
+    // one read of the first index load fails, at every depth of that load; the query it hits may
+    // answer "absent", every later query has to be right (nothing half-loaded may be kept)
+    let mut queries = queries;
+    for i in 0..12u32 {
+        queries.push(q(20 + i, QKind::Exists, &format!("exd/sheet{}.exh", i)));
+    }
+    let mut idx = out.len() as u64;
+    for kind in [Hostile::Eio, Hostile::EarlyEof] {
+        // (a load is about 500 reads under whole completions: SqPack header, index header with
+        // its four segment descriptors, then three reads per entry)
+        for nth in (0..240u32).chain((240..620).step_by(2)) {
+            out.push(Doc {
+                prop: "C01".into(),
+                seed: 0xD1EC7ED0 + idx,
+                cfg: Cfg::Hostile,
+                benign: Benign::quiet(),
+                io_faults: vec![IoFault { op: 0, call: Call::Read, nth, kind, sticky: false, path_contains: Some(".index".into()) }],
+                body: Body::C01(C01Doc { install: install.clone(), queries: queries.clone() }),
+            });
+            idx += 1;
+        }
     }
     out
 }
